@@ -162,6 +162,12 @@ def gen_decision_cases(tier, seed):
         if reloaded:
             s.config(cfg)
             s.write(9, wc.CFG_PATH)
+        # "depends only on its path, the configured path sets and whether the writer is an editor": in a third of the
+        # cases a writer of the OTHER kind writes the same path just before - the decision has no memory
+        if rng.random() < 0.33:
+            if not editor:
+                s.exec(6, wc.X + "/vim")
+            s.write(6, path)
         s.dump()
         s.write(5, path)
         s.dump()
@@ -203,7 +209,7 @@ def main(rep):
         rep.cov["rule"] = ("sieve(): paths of depth <= %d over components {a, b, .c}, common-parent offsets {1,3,5,len+1}, every single rule "
                            "(absolute/relative prefixes, '/', rules ending inside or beyond a component, rules naming a different directory of equal length and equal 64-bit hash) in every set, sampled pairs, random long paths; "
                            "decisions: random rule assignments to the four path sets, editor and non-editor writers, through the real handle_close_write "
-                           "with a Lua configuration, in 3 of 10 cases put in force by rewriting the configuration file of a daemon started with another policy; non-trivial = at least one rule matches; distinct by (path, offset, sets)" % (3 if rep.tier == "quick" else 4))
+                           "with a Lua configuration, in 3 of 10 cases put in force by rewriting the configuration file of a daemon started with another policy, in a third of the cases preceded by a write of the same path by a writer of the other kind; non-trivial = at least one rule matches; distinct by (path, offset, sets)" % (3 if rep.tier == "quick" else 4))
         nontrivial = set()
         validated = 0
         diverged = []
